@@ -25,6 +25,7 @@ impl<T> Atomic<T> {
                 None,
             );
             op.protected = true;
+            op.guard = guard as *const Guard<'_> as usize;
             let r: Shared<'g, T> = guard.protect(&self.0, ordering).into();
             verif::hooks().after_op(&op, r.ptr as usize, None);
             return r;
@@ -261,7 +262,11 @@ impl RetireShared for Guard<'_> {
     unsafe fn retire_shared<T>(&self, shared: Shared<'_, T>) {
         #[cfg(flurry_verif)]
         {
-            crate::verif::hooks().retire(shared.ptr as usize, std::panic::Location::caller());
+            crate::verif::hooks().retire(
+                shared.ptr as usize,
+                self as *const Guard<'_> as usize,
+                std::panic::Location::caller(),
+            );
             self.defer_retire(shared.ptr, crate::verif::reclaim_boxed::<Linked<T>>);
             return;
         }
